@@ -197,3 +197,15 @@ def op_exc_render(c):
     except Exception as e:
         return errobs(e)
     return [0] + [ord(ch) for ch in text]
+
+
+def op_fls_loaded(c):
+    """c = {magic, version, payload}: the code object as xdis's own unmarshaller returns it, then the version's findlinestarts -
+    the path a loaded file takes (the line table goes through the string readers of the unmarshaller first)"""
+    import io
+    from xdis.unmarshal import load_code
+    try:
+        co = load_code(io.BytesIO(bytes(c["payload"])), c["magic"], {})
+        return flat_pairs(_opc(c["version"]).findlinestarts(co))
+    except Exception as e:
+        return errobs(e)
